@@ -425,7 +425,7 @@ fn end_to_end(w: &Work, root: &Path) {
     }
 }
 
-fn scenario(w: Work) {
+pub fn scenario(w: Work) {
     let base = scratch_base();
     let dir = base.join(format!("simcheck-c12-{}-{}", std::process::id(), DIRNO.fetch_add(1, Ordering::Relaxed)));
     let _rm = RmOnDrop(dir.clone());
